@@ -11,7 +11,7 @@ import ast
 from .. import astutil as A
 from ..fa import FA
 from ..loader import AnalysisError
-from .cache_model import CacheModel, self_attr, CACHE_CLASS, safe_expand
+from .cache_model import CacheModel, self_attr, assign_pairs, CACHE_CLASS, safe_expand
 
 RL = "runner_local"
 FORBIDDEN_UNDER_LEAF_LOCK = ("_mutex_for_invocation", "memento_run_local", "memento_run_batch", "_filter_call", "batch_run")
@@ -31,8 +31,9 @@ def _with_blocks(fa: FA, pred):
 
 
 def _lock_decorators(ck, module):
-    """Module-level decorators whose wrapper is `with self.<lock>: return method(self, ...)`
-    on every path.  -> {decorator name: lock field}"""
+    """Module-level decorators whose wrapper calls the decorated method only inside `with self.<lock>:` (the lock named
+    directly or through a local), whatever else the wrapper does with the result (return it from inside the block, or
+    keep it in a variable and return it after the block).  -> {decorator name: lock field}"""
     out = {}
     for name, fi in module.functions.items():
         if len(fi.params) != 1:
@@ -42,15 +43,43 @@ def _lock_decorators(ck, module):
         rets = [n for n in top if isinstance(n, ast.Return)]
         if len(inner) != 1 or len(rets) != 1 or A.norm(rets[0].value) != inner[0].name:
             continue
-        w = inner[0]
-        body = A.sig_stmts(w.body)
-        if len(body) == 1 and isinstance(body[0], ast.With) and len(body[0].items) == 1:
-            lk = self_attr(body[0].items[0].context_expr)
-            wb = A.sig_stmts(body[0].body)
-            if lk and len(wb) == 1 and isinstance(wb[0], ast.Return) and isinstance(wb[0].value, ast.Call) \
-                    and A.norm(wb[0].value.func) == fi.params[0] and wb[0].value.args and A.norm(wb[0].value.args[0]) == "self":
-                out[name] = lk
+        wfi = fi.nested.get(inner[0].name)
+        if wfi is None or not wfi.params:
+            continue
+        w = FA(ck, wfi)
+        me = wfi.params[0]
+        calls = [c for c in w.calls() if isinstance(c.func, ast.Name) and c.func.id == fi.params[0] and c.args and A.norm(c.args[0]) == me]
+        if not calls:
+            continue
+        locks = set()
+        ok = True
+        for c in calls:
+            held = None
+            x = c
+            while x is not None:
+                x = w.pm.get(x)
+                if isinstance(x, ast.With):
+                    for it in x.items:
+                        e = safe_expand(w, it.context_expr, x)
+                        if isinstance(e, ast.Attribute) and isinstance(e.value, ast.Name) and e.value.id == me:
+                            held = e.attr
+                if held:
+                    break
+            if held is None:
+                ok = False
+            else:
+                locks.add(held)
+        # the wrapper hands the method's result on
+        hands_on = any(r.value is not None and any(isinstance(v_, ast.Call) and isinstance(v_.func, ast.Name) and v_.func.id == fi.params[0]
+                                                   for (v_, _at) in _sources(w, r)) for r in w.returns())
+        if ok and len(locks) == 1 and hands_on:
+            out[name] = next(iter(locks))
     return out
+
+
+def _sources(fa, r):
+    from .cache_model import value_sources
+    return value_sources(fa, r)
 
 
 def _mutex_holding_context_managers(ck, module):
@@ -449,7 +478,8 @@ def check(ck):
     ck.ob(R5, g.key(None, "get-returns-thread-local"), bool(okg), "CallStack.get returns the calling thread's stack" if okg else
           "CallStack.get does not return the thread-local stack", g.where())
     ini = FA(ck, "call_stack.CallStack.__init__")
-    okf = any(isinstance(s, ast.Assign) and A.dotted(s.targets[0]) == "self._frames" and isinstance(s.value, ast.List) and not s.value.elts for s in ini.stmts(ast.Assign))
+    okf = any(A.dotted(t) == "self._frames" and ((isinstance(v, ast.List) and not v.elts) or (isinstance(v, ast.Call) and A.norm(v) == "list()"))
+              for s in ini.stmts((ast.Assign, ast.AnnAssign)) for (t, v) in assign_pairs(s))
     ck.ob(R5, ini.key(None, "own-frame-list"), okf, "each CallStack owns a fresh frame list" if okf else
           "CallStack instances do not start with their own fresh frame list", ini.where())
     # ---- R6: readers that run outside the per-call mutex (the batch pre-check) never observe a
